@@ -3,6 +3,7 @@ package checks
 import (
 	"encoding/json"
 	"fmt"
+	"math/bits"
 	"sort"
 	"sync/atomic"
 
@@ -188,12 +189,40 @@ var c16Foreign = func() []uint16 {
 	return out
 }()
 
+// c16NearMisses lists encodings that look like moves of this very position but mostly are not: the four castling
+// encodings whatever the rights and the squares in between, and for every pawn of the side to move all one- and
+// two-square steps straight and diagonal, forwards and backwards (with the promotion bits 0, and 1, 6, 7 onto the
+// edge ranks) - what a table entry of a neighbouring position typically holds.
+func c16NearMisses(b *board.Board, out []uint16) []uint16 {
+	enc := func(from, to, promo int) uint16 { return uint16(to) | uint16(from)<<6 | uint16(promo)<<12 }
+	out = append(out, enc(4, 6, 0), enc(4, 2, 0), enc(60, 62, 0), enc(60, 58, 0))
+	pawns := uint64(b.Pieces[Pawn] & b.Colors[b.STM])
+	for ; pawns != 0 && len(out) < 240; pawns &= pawns - 1 {
+		from := bits.TrailingZeros64(pawns)
+		for _, d := range []int{7, 8, 9, 16, -7, -8, -9, -16} {
+			to := from + d
+			if to < 0 || to > 63 {
+				continue
+			}
+			if df := to&7 - from&7; df < -1 || df > 1 {
+				continue
+			}
+			out = append(out, enc(from, to, 0))
+			if to < 8 || to > 55 {
+				out = append(out, enc(from, to, 1), enc(from, to, 6), enc(from, to, 7))
+			}
+		}
+	}
+	return out
+}
+
 func runC16(r *ev.Run) {
 	var runs, positions, hashFirst, allEnc atomic.Int64
 	rankers := []string{"fresh", "up", "down", "alt"}
 	handle := func(b *board.Board, ms *move.Store, ru *c16Reusable, fen func() string, full bool, rankers []string, stacks []int) {
 		positions.Add(1)
 		var gen [256]uint16
+		var nm [256]uint16
 		g := eng.Generated(ms, b, gen[:0])
 		for si, stk := range stacks {
 			hs := c16Stack(stk)
@@ -215,6 +244,9 @@ func runC16(r *ev.Run) {
 					try(h)
 				}
 				for _, h := range c16Foreign {
+					try(h)
+				}
+				for _, h := range c16NearMisses(b, nm[:0]) {
 					try(h)
 				}
 				if full && rk == "fresh" && si == 0 {
@@ -277,7 +309,7 @@ func runC16(r *ev.Run) {
 	r.Set("positions", positions.Load())
 	r.Set("positions_with_all_32768_hash_encodings", allEnc.Load())
 	r.Set("band_states", band)
-	r.Set("rule", "tree nodes below the root corpus and the rights/ep-bearing positions of KPkp and KRkr x hash move in {0} + every generated move + 64 foreign encodings (all 32768 encodings on a seed-selected quarter of the roots) x ranker states {fresh, saturated up, saturated down, alternating} produced by real FailHigh calls x history stack {empty, two moves} x picker frame on top of {0, 9, 18} moves of enclosing frames in the move store; oracle: yielded multiset == generated set, hash move first whenever generated, every weight in its band and never a sentinel; band: reachability fix-point over the stored value of each of the three history tables under all 65536 bonuses of the real Add, starting from 0, every reachable value must lie in +-MaxHistory; non-trivial = runs whose hash move is a generated move")
+	r.Set("rule", "tree nodes below the root corpus and the rights/ep-bearing positions of KPkp and KRkr x hash move in {0} + every generated move + 64 foreign encodings + the near-miss encodings of the position (the four castling encodings, every one- and two-square pawn step in all eight directions with promotion bits 0/1/6/7) (all 32768 encodings on a seed-selected quarter of the roots) x ranker states {fresh, saturated up, saturated down, alternating} produced by real FailHigh calls x history stack {empty, two moves} x picker frame on top of {0, 9, 18} moves of enclosing frames in the move store; oracle: yielded multiset == generated set, hash move first whenever generated, every weight in its band and never a sentinel; band: reachability fix-point over the stored value of each of the three history tables under all 65536 bonuses of the real Add, starting from 0, every reachable value must lie in +-MaxHistory; non-trivial = runs whose hash move is a generated move")
 }
 
 // c16Band explores, for each table, the set of stored values reachable from 0
